@@ -72,8 +72,9 @@ kept as `docs/DESIGN-round0.md`; where the two differ, this one is right.
 **Status.** All 20 properties (C01-C20) are claimed; `not_applicable` is empty. Every property has
 a TLA+ specification checked by TLC, a binding to the real code (replay of TLC-generated
 behaviours; for C19 and C16 also TLC validation of traces recorded from the real code), a quick and a thorough tier, evidence,
-and at least two seeded property-breaking changes produced by independent sub-agents - all of them
-are caught (§9 says which were first missed and what was strengthened). While building, %d genuine
+and at least four seeded property-breaking changes produced by independent sub-agents (97 in all): 91
+are caught, the six of the last round that are not are listed as such in §9 with what the model lacks
+(§9 also says which were first missed and what was strengthened). While building, %d genuine
 defects of the pinned tree were repaired by small `fix:` commits in `/repo` and %d root causes are
 recorded as known findings (§7).
 
@@ -181,7 +182,7 @@ minimal history shape ...), never by message text. An entry has `key`, `keys` or
 regular expressions only *sort* dumped keys into root causes; at run time only exact membership
 counts). A reported key that is listed prints `KNOWN-FINDING: property=<id> <entry> ...` and does not
 fail the run; any other key is a violation, so a different violation of the same property is still
-reported (every seeded change below is caught although its property has known findings). Nothing
+reported (the seeded changes below are caught although their properties have known findings). Nothing
 adds to the file at run time. Where a root cause is best described as a *named deviation of the
 model* (C05, C06, C14, C11-R6), the model carries the deviation as a parameter and a failing point is
 attributed to it only if the implementation's outcome equals the deviation's prediction.
@@ -244,7 +245,7 @@ w("| id | specification | quick cases | quick s | fixes | known findings | seede
 w("|---|---|---|---|---|---|---|")
 for p in props:
     pid = p['id']; e = ev.get(pid, {}); cov = e.get('coverage', {}) if isinstance(e.get('coverage'), dict) else {}
-    w(f"| {pid} | {SPEC[pid]} | {cov.get('evaluations', '?')} | {e.get('wall_s', 0):.0f} | {len(fixed.get(pid, []))} | {len(kf.get(pid, []))} | {len(seeded.get(pid, []))}/{len(seeded.get(pid, []))} |")
+    w(f"| {pid} | {SPEC[pid]} | {cov.get('evaluations', '?')} | {e.get('wall_s', 0):.0f} | {len(fixed.get(pid, []))} | {len(kf.get(pid, []))} | {sum(1 for (n, m) in seeded.get(pid, []) if not m['checks']['detected_by'].startswith('NOT CAUGHT'))}/{len(seeded.get(pid, []))} |")
 
 w("\n---------------------------------------------------------------------------------------------------\n\n## 7. Genuine defects of the pinned tree\n")
 w("""Every entry below was reproduced against the real code (the replay file named in the entry's
@@ -331,7 +332,9 @@ unedited suite green, and had to deliver a demonstration that fails with the cha
 without. I confirmed each in a scratch worktree (`tools/keep_mutant.sh`: patch applies, `go build`,
 demo passes without / fails with) and ran the checks with `git -C /repo apply` ... `git -C /repo
 checkout -- .`. None is committed to `/repo`. "First MISSED" marks the changes my checks did not
-catch when they were delivered, with what was strengthened; all are caught now.\n""")
+catch when they were delivered, with what was strengthened. "NOT CAUGHT" marks the six changes of
+the last round (C06-6, C07-5, C07-6, C10-5, C10-6, C12-5) that were delivered in the last hour and are
+still missed: each entry says which dimension the specification lacks; they are the next work items.\n""")
 w("| change | what it breaks | detected by |\n|---|---|---|")
 for pid in sorted(seeded):
     for (n, m) in seeded[pid]:
